@@ -67,11 +67,6 @@ Fixpoint levels (tolpns : bool) (fuel : nat) (p placed : pod) : option (list pod
                 end
        end.
 
-Definition none_fits_ex (c : cfg) (exempt : bool) (s : sched) (p : pod) : bool :=
-  forallb (fun x => negb (ex_accepts c exempt x p)) (s_ex s).
-Definition none_fits_in (c : cfg) (s : sched) (p : pod) : bool :=
-  forallb (fun x => negb (in_accepts c x p)) (s_in s).
-
 Fixpoint force_ex (c : cfg) (l : list exent) (n : string) (p : pod) : option (list exent) :=
   match l with
   | [] => None
@@ -132,10 +127,7 @@ Fixpoint replay (c : cfg) (s : sched) (q : list qpod) (o : obs) : bool * bool :=
 
 (* no placement names a node that is marked for deletion / deleting *)
 Definition deleting_unused (nodes : list snode) (o : obs) : bool :=
-  forallb (fun x => match x with
-                    | (_, _, TEx n) => negb (existsb (fun s => String.eqb (sn_name s) n && sn_marked_for_deletion s) nodes)
-                    | _ => true
-                    end) o.
+  forallb (fun x => match x with (_, _, t) => target_not_deleting nodes t end) o.
 
 (* ---- Synced / Reconcile ---- *)
 Definition unlaunched (m : cstate) : bool := existsb (fun kv => String.eqb (snd kv) "") m.
